@@ -47,6 +47,21 @@ def make_cases(chk, rng):
             h = gen_sol.Hist(r2, f"b{i}_{budget}", be, 1, st, dims=(r2.choice([1, 2]), r2.choice([0, 1]), r2.choice([0, 1, 2])))
             h.setup(dump=False).solve()
             cases.append(h.case(kind="budget"))
+    # re-solves on the same object after a bound-pattern change (left-over multipliers / slacks of the previous pattern)
+    for i in range(400 if chk.thorough() else 50):
+        be = rng.randrange(5)
+        n = rng.choice([2, 3])
+        st = gen_sol.rand_settings(rng, max_iter=1)
+        st["tau"] = F(3, 4)
+        h = gen_sol.Hist(rng, f"q{i}", be, rng.choice([0, 1]), st, dims=(n, rng.choice([0, 1]), rng.choice([0, 1, 2])),
+                         bounds=[rng.choice(KINDS) for _ in range(n)])
+        h.setup(dump=False).solve()
+        pr = h.prob
+        lb, ub = pr.rand_bounds(rng, [rng.choice(KINDS) for _ in range(n)])
+        pr.lb, pr.ub = lb, ub
+        h.raw("sol.sqrtmode -1", "").raw(f"sol.update {rng.choice([0, 1])} " + pr.vec_arg("lb", lb) + " " + pr.vec_arg("ub", ub), "update(bounds)")
+        h.solve()
+        cases.append(h.case(kind="resolve"))
     return cases
 
 
